@@ -261,8 +261,16 @@ UnitsSet ==
                      MkUnit(c2, IF c2.ver >= 5 THEN "DW_UT_partial" ELSE "legacy", sh)>>>> :
           c1 \in {Ctx(2, 64, 8, FALSE), Ctx(5, 32, 4, FALSE)},
           c2 \in {Ctx(3, 32, 4, FALSE), Ctx(5, 64, 8, FALSE)}, sh \in {0, 1}}
-TypesSet == {<<"tu4", <<MkUnit(Ctx(4, f, a, l), "tu4", 0), [MkUnit(Ctx(4, f, a, l), "tu4", 0) EXCEPT !.sig = W(<<9, 9, 9, 9, 0, 0, 0, 1>>)]>>>> :
-               f \in {32, 64}, a \in {4, 8}, l \in BOOLEAN}
+\* two v4 type units (.debug_types) and - third in the list, but alone in .debug_info - a compile unit whose entries refer to them by
+\* type signature (DW_FORM_ref_sig8); its abbreviation table is a private one behind the type units' table
+Sig2 == W(<<9, 9, 9, 9, 0, 0, 0, 1>>)
+SigRefCU(ctx) == [U0 EXCEPT !.ctx = ctx, !.utype = "legacy", !.abbrevOff = 1,
+                            !.abbrevs = <<Decl(1, TagCU, TRUE, <<>>), Decl(2, TagTypedef, FALSE, <<Spec1(AtType, "DW_FORM_ref_sig8")>>)>>,
+                            !.dies = << [code |-> 1, nullenc |-> <<>>, attrs |-> <<>>],
+                                        [code |-> 2, nullenc |-> <<>>, attrs |-> <<A("DW_FORM_ref_sig8", Sig2)>>],
+                                        [code |-> 2, nullenc |-> <<>>, attrs |-> <<A("DW_FORM_ref_sig8", U0.sig)>>], NullDie >>]
+TypesSet == {<<"tu4", <<MkUnit(Ctx(4, f, a, l), "tu4", 0), [MkUnit(Ctx(4, f, a, l), "tu4", 0) EXCEPT !.sig = Sig2], SigRefCU(Ctx(4, f2, a, l))>>>> :
+               f \in {32, 64}, f2 \in {32, 64}, a \in {4, 8}, l \in BOOLEAN}
 
 \* ---- mode "shapes": the token writer
 \* abbreviations: 1 root/open (children), 2 leaf (const_value data1), 3 opensib (children + DW_AT_sibling in the unit's sibling form),
